@@ -272,6 +272,6 @@ class RetryStats:
             k = sum(1 for (name, ret, n) in ops if n > self.minlen[(name, ret)])
             retry_ops += k
             with_retry += 1 if k else 0
-        return {"cases": len(self.cases), "cases_with_failed_cas": with_failed, "failed_cas_events": failed,
+        return {"logs_analysed": len(self.cases), "cases_with_failed_cas": with_failed, "failed_cas_events": failed,
                 "cases_with_retry_path": with_retry, "operations_on_retry_path": retry_ops,
                 "retry_rule": "an operation is on a retry path when it takes more scheduled steps than the shortest operation of the same name and outcome in this run"}
